@@ -127,7 +127,7 @@ type c05Case struct {
 	Finality  int // 0 latest, 1 safe, 2 finalized
 	FinType   int
 	Script    []c05Step
-	FaultKind []int // per fault: 0 FilterLogs error, 1 HeaderByNumber(number) error, 2 HeaderByNumber(number) NotFound, 3 tip poll error, 4 ProcessBlock error, 5 / 6 HeaderByNumber(number) / FilterLogs fails with an RPC timeout (wraps context.DeadlineExceeded)
+	FaultKind []int // per fault: 0 FilterLogs error, 1 HeaderByNumber(number) error, 2 HeaderByNumber(number) NotFound, 3 tip poll error, 4 ProcessBlock error, 5 / 6 HeaderByNumber(number) / FilterLogs fails with an RPC timeout (wraps context.DeadlineExceeded), 7 the log appender fails once at that invocation before appending anything (appenders of the bridge syncer make an RPC per log)
 	FaultAt   []int // ordinal of the call of that kind
 	RestartAt int   // -1, or restart when the n-th RPC is made
 }
@@ -178,7 +178,7 @@ func c05Gen(ch choose.Chooser, enum bool, maxBlocks int) c05Case {
 	}
 	nf := choose.Pick(ch, []int{0, 0, 1, 2, 3}, "nFaults")
 	for i := 0; i < nf; i++ {
-		c.FaultKind = append(c.FaultKind, ch.Int(0, 6, "faultKind"))
+		c.FaultKind = append(c.FaultKind, ch.Int(0, 7, "faultKind"))
 		c.FaultAt = append(c.FaultAt, ch.Int(0, 12, "faultAt"))
 	}
 	c.RestartAt = -1
@@ -302,6 +302,16 @@ func c05Run(c c05Case) (res c05Result, err error) {
 	for _, tp := range []common.Hash{c05TopicA, c05TopicB} {
 		tp := tp
 		appender[tp] = func(b *aggkitsync.EVMBlock, l types.Log) error {
+			mu.Lock()
+			counts[7]++
+			for i, fk := range c.FaultKind {
+				if fk == 7 && !faultUsed[i] && counts[7] > c.FaultAt[i] {
+					faultUsed[i] = true
+					mu.Unlock()
+					return errors.New("injected transient failure of the appender's own rpc")
+				}
+			}
+			mu.Unlock()
 			b.Events = append(b.Events, c05Event{Block: l.BlockNumber, Index: l.Index, Topic: tp})
 			return nil
 		}
